@@ -26,7 +26,7 @@ impl builtins::Command for AliasCommand {
 
         if self.print || self.aliases.is_empty() {
             for (name, value) in context.shell.aliases() {
-                writeln!(context.stdout(), "alias {name}='{value}'")?;
+                writeln!(context.stdout(), "alias {name}='{}'", quote_alias_value(value))?;
             }
         } else {
             for alias in &self.aliases {
@@ -38,7 +38,11 @@ impl builtins::Command for AliasCommand {
                         .aliases_mut()
                         .insert(name.to_owned(), unexpanded_value.to_owned());
                 } else if let Some(value) = context.shell.aliases().get(alias) {
-                    writeln!(context.stdout(), "alias {alias}='{value}'")?;
+                    writeln!(
+                        context.stdout(),
+                        "alias {alias}='{}'",
+                        quote_alias_value(value)
+                    )?;
                 } else {
                     writeln!(
                         context.stderr(),
@@ -52,4 +56,10 @@ impl builtins::Command for AliasCommand {
 
         Ok(exit_code)
     }
+}
+
+/// Makes an alias value safe to place between single quotes: an embedded single quote
+/// closes the quoted string, contributes an escaped quote, and reopens it.
+fn quote_alias_value(value: &str) -> String {
+    value.replace('\'', "'\\''")
 }
